@@ -214,7 +214,7 @@ func (p AnagramSearcher) Chosen() {}
 func NewAnagramSearcher(anagram []byte, blank byte) *AnagramSearcher {
 	tmp := make([]byte, len(anagram))
 	copy(tmp, anagram)
-	sort.Slice(tmp, func(i, j int) bool { return anagram[i] < anagram[j] })
+	sort.Slice(tmp, func(i, j int) bool { return tmp[i] < tmp[j] })
 	counts := make([]letterCount, 0)
 	blanks := 0
 	for i, l := range tmp {
@@ -222,7 +222,7 @@ func NewAnagramSearcher(anagram []byte, blank byte) *AnagramSearcher {
 			blanks++
 			continue
 		}
-		if i > 1 && tmp[i-1] == tmp[i] {
+		if i > 0 && tmp[i-1] == tmp[i] {
 			counts[len(counts)-1].count++
 		} else {
 			counts = append(counts, letterCount{letter: l, count: 1})
